@@ -205,6 +205,35 @@ class Session:
         shutil.rmtree(d, ignore_errors=True)
         return r
 
+    def simulate(self, module, cfg, num, depth, seed=None, constants=None, timeout=600):
+        """TLC's simulator writes `num` behaviours of the specification (text files, one state per action with the name
+        of the action) into a directory of the scratch space, to be replayed on the real code. Returns the directory."""
+        d = self.spec_dir()
+        if constants:
+            txt = open(os.path.join(d, cfg)).read()
+            for k, v in constants.items():
+                txt = re.sub(r"(\b%s\s*=\s*)\S+" % re.escape(k), lambda m: m.group(1) + str(v), txt)
+            open(os.path.join(d, cfg), "w").write(txt)
+        out = tempfile.mkdtemp(prefix="beh-%s-" % module, dir=self.scratch)
+        meta = tempfile.mkdtemp(prefix="meta-", dir=self.scratch)
+        cmd = ["tlc", "-workers", "1", "-simulate", "file=%s,num=%d" % (os.path.join(out, "b"), num), "-depth", str(depth),
+               "-seed", str(seed if seed is not None else self.seed), "-metadir", meta, "-noGenerateSpecTE", "-config", cfg, module + ".tla"]
+        env = dict(os.environ)
+        env["JAVA_TOOL_OPTIONS"] = (env.get("JAVA_TOOL_OPTIONS", "") + " -Djava.io.tmpdir=" + os.path.join(self.scratch, "jtmp")).strip()
+        os.makedirs(os.path.join(self.scratch, "jtmp"), exist_ok=True)
+        try:
+            p = subprocess.run(cmd, cwd=d, env=env, timeout=timeout, stdout=subprocess.PIPE, stderr=subprocess.STDOUT)
+        except subprocess.TimeoutExpired:
+            raise Undecided("TLC simulation timed out on %s" % module)
+        shutil.rmtree(meta, ignore_errors=True)
+        shutil.rmtree(d, ignore_errors=True)
+        n = len(os.listdir(out))
+        if n == 0:
+            raise Undecided("TLC wrote no behaviour of %s/%s:\n%s" % (module, cfg, p.stdout.decode("utf-8", "replace")[-2000:]))
+        log("simulate %s/%s: %d behaviours" % (module, cfg, n))
+        self.models.append({"module": module, "cfg": cfg, "simulated_behaviours": n, "depth": depth, "constants": constants or {}})
+        return out
+
     # ---------------------------------------------------------------- drivers
     def drive(self, name, args=(), binary=None, timeout=3600):
         out = tempfile.mkdtemp(prefix="drv-%s-" % name, dir=self.scratch)
